@@ -74,21 +74,26 @@ def d1_tables(ctx, rm: REModel):
             ctx.ob("C02.D1-fail-reraise", cname(run, h, "except Exception: re-raise"), ok_raise,
                    "" if ok_raise else "an unhandled exception is swallowed instead of ending the call with that exception", where=where(run, h))
     # exception_map in the CancelledError handler of the loop
-    emap = None
-    for s in A.walk_stmts(rm.loop.body):
-        if isinstance(s, ast.Assign) and A.chain(s.targets[0]) == "exception_map" and isinstance(s.value, ast.Dict):
-            emap = {A.const_str(k): A.chain(v) for k, v in zip(s.value.keys, s.value.values)}
-            emap_stmt = s
-    if emap is None:
-        # the same table kept as a class-level constant: `<self|RunEngine>.<NAME>[self.state]` in the loop
-        for n in ast.walk(rm.loop):
-            if isinstance(n, ast.Subscript) and A.norm(n.slice) in ("self.state", "self._state") and isinstance(n.value, ast.Attribute) \
-                    and isinstance(n.value.value, ast.Name) and n.value.value.id in ("self", "RunEngine", "cls"):
+    # the table state -> exception looked up with the engine's state in the message loop: a dict literal bound to a local (anywhere
+    # in _run), a class-level constant, or written in place
+    emap, emap_stmt = None, None
+    for n in ast.walk(rm.loop):
+        if isinstance(n, ast.Subscript) and A.norm(n.slice) in ("self.state", "self._state"):
+            tbl, where_ = None, None
+            if isinstance(n.value, ast.Dict):
+                tbl, where_ = n.value, n
+            elif isinstance(n.value, ast.Name):
+                defs = [s_ for s_ in A.walk_stmts(run.node.body) if isinstance(s_, ast.Assign) and any(isinstance(t, ast.Name) and t.id == n.value.id for t in s_.targets)]
+                if len(defs) == 1 and isinstance(defs[0].value, ast.Dict):
+                    tbl, where_ = defs[0].value, defs[0]
+            elif isinstance(n.value, ast.Attribute) and isinstance(n.value.value, ast.Name) and n.value.value.id in ("self", "RunEngine", "cls"):
                 for cs_ in rm.cls.node.body:
                     if isinstance(cs_, (ast.Assign, ast.AnnAssign)) and A.chain(cs_.targets[0] if isinstance(cs_, ast.Assign) else cs_.target) == n.value.attr \
                             and isinstance(cs_.value, ast.Dict):
-                        emap = {A.const_str(k): A.chain(v) for k, v in zip(cs_.value.keys, cs_.value.values)}
-                        emap_stmt = cs_
+                        tbl, where_ = cs_.value, cs_
+            if tbl is not None:
+                emap = {A.const_str(k): A.chain(v) for k, v in zip(tbl.keys, tbl.values)}
+                emap_stmt = where_
     ctx.require(emap is not None, "anchor vanished: exception_map in the CancelledError handler of _run")
     for st, exc in STATE_EXC.items():
         ok = emap.get(st) == exc
